@@ -29,16 +29,16 @@ theorem seenBy_nodup_step {s : Net} {op : Op} (h : ∀ f, f ∈ s.flight → f.a
   cases flight_step hf with
   | old h' => exact h f h'
   | ann hop ha hd hadv => rw [hadv]; simp [announceAdv]
-  | fwd a m hm hl ha hb hd hne hns hself hacc hlim hadv =>
-    rw [hadv]
-    simp only [fwdAdv]
+  | fwd a m hm hl ha hb hd hne hns hself hseen hsb hlim hadv =>
+    rw [hadv, fwdAdv_seenBy]
     have := h _ hm
     refine List.nodup_append.2 ⟨this, by simp, ?_⟩
     intro x hx y hy
     simp only [List.mem_singleton] at hy
     subst hy
     intro hxy; subst hxy
-    exact hacc.2.1 hx
+    exact hsb hx
+  | wdr hop ha hcidr hd hadv => rw [hadv]; simp [withdrawAdv]
   | rep ord hop ha hb hl hadv =>
     obtain ⟨o, sq, _, _, hm⟩ := mem_replayAdvs hadv
     rw [hm]; simp [replayGroup]
@@ -59,7 +59,7 @@ theorem C11_no_self_path (n mh : Nat) (L : Node → List RAd) (ops : List Op) :
       exact List.not_mem_nil)
     (by
       intro s op h x e he
-      rcases entries_step he with h' | ⟨a, m, _, _, _, _, _, hp, r, _, rfl⟩
+      rcases entries_step he with h' | ⟨a, m, _, _, _, _, _, _, hp, r, _, rfl⟩
       · exact h x e h'
       · exact hp)
 
@@ -104,7 +104,7 @@ theorem weight_fwd {n b : Nat} {m : Adv} (hb : b < n) (hns : b ∉ m.seenBy) :
   congr 2
   apply List.filter_congr
   intro x _
-  simp only [fwdAdv, List.contains_eq_mem, List.mem_append, List.mem_singleton]
+  simp only [fwdAdv_seenBy, List.contains_eq_mem, List.mem_append, List.mem_singleton]
   by_cases h1 : x ∈ m.seenBy <;> by_cases h2 : x = b <;> simp [h1, h2]
 
 theorem sum_map_le_const {α : Type} (l : List α) (g : α → Nat) (c : Nat) (h : ∀ x, x ∈ l → g x ≤ c) :
@@ -149,7 +149,7 @@ theorem muL_outs_lt (s : Net) (a b : Node) (m : Adv) (hb : b < s.n) :
       intro pf hpf
       rw [← hout] at hpf
       have := handle_out (p := pf.1) (m := pf.2) hpf
-      exact ⟨this.1, this.2.2.2.2.2.1.2.1⟩
+      exact ⟨this.1, this.2.2.2.2.2.2.1⟩
     have hns : b ∉ m.seenBy := (hmem o List.mem_cons_self).2
     have hw := weight_fwd (n := s.n) hb hns
     have hlen : (o :: t).length ≤ s.n := by
@@ -207,6 +207,7 @@ theorem C11_deliver_decreases (s : Net) (a b i : Nat) (h : Effective s a b i) :
 /-- Ops that create no traffic. (`announce`, `replay` and `dup` are the only ones that do.) -/
 def quiet : Op → Bool
   | .announce _ => false
+  | .withdraw _ => false
   | .replay _ _ _ => false
   | .dup _ _ _ => false
   | _ => true
@@ -224,6 +225,7 @@ theorem muL_eraseIdx_le (n : Nat) (l : List Flight) (pos : Nat) : muL n (l.erase
 theorem quiet_not_increasing (s : Net) (op : Op) (hq : quiet op = true) : mu (step s op) ≤ mu s := by
   cases op with
   | announce a => cases hq
+  | withdraw a => cases hq
   | replay a b ord => cases hq
   | dup a b i => cases hq
   | deliver a b i =>
@@ -298,6 +300,12 @@ theorem seen_step_mono {s : Net} {op : Op} {b : Node} {k : Node × Nat}
       · exact hk
     · exact hk
   | announce c =>
+    simp only [step, stepCore]; split
+    · simp only [setNode_nodes]; split
+      · rename_i hx; subst hx; exact hk
+      · exact hk
+    · exact hk
+  | withdraw c =>
     simp only [step, stepCore]; split
     · simp only [setNode_nodes]; split
       · rename_i hx; subst hx; exact hk
@@ -453,17 +461,22 @@ theorem C11_forward_once (s : Net) (a b : Node) (m : Adv) :
     split
     · simp
     · dsimp only
+      have key : ((fwdTargets (peersOf s b) a (fwdAdv b m).seenBy).map (fun p => (p, fwdAdv b m))).map Prod.fst
+          |>.Nodup := by
+        simp only [List.map_map]
+        have : (Prod.fst ∘ fun p => (p, fwdAdv b m)) = (id : Node → Node) := rfl
+        rw [this, List.map_id]
+        unfold fwdTargets peersOf
+        exact (List.nodup_range.filter _).filter _
       split
       · simp
       · split
-        · simp
+        · exact key
         · split
           · simp
-          · simp only [List.map_map]
-            have : (Prod.fst ∘ fun p => (p, fwdAdv b m)) = (id : Node → Node) := rfl
-            rw [this, List.map_id]
-            unfold fwdTargets peersOf
-            exact (List.nodup_range.filter _).filter _
+          · split
+            · simp
+            · exact key
   · intro h
     rcases List.mem_map.1 h with ⟨⟨p, m'⟩, hpm, hp⟩
     simp only at hp
@@ -490,15 +503,21 @@ theorem pathInv_step {s : Net} {op : Op} (hI : PathInv s) (hb : benignOp s op = 
     cases flight_step hf with
     | old h => exact hI.flight f h
     | ann hop ha hd hadv => rw [hadv]; simp [announceAdv]
-    | fwd a m hm hl ha hb' hd hne hns hself hacc hlim hadv =>
-      rw [hadv]
+    | fwd a m hm hl ha hb' hd hne hns hself hseen hsb hlim hadv =>
+      rw [hadv, fwdAdv_seenBy]
       obtain ⟨hnd, hsub⟩ := hI.flight _ hm
-      simp only [fwdAdv]
-      refine ⟨List.nodup_cons.2 ⟨fun h => hacc.2.1 (hsub _ h), hnd⟩, ?_⟩
-      intro y hy
-      rcases List.mem_cons.1 hy with hy | hy
-      · subst hy; simp
-      · exact List.mem_append_left _ (hsub y hy)
+      cases hwd : m.wd with
+      | true =>
+        rw [fwdAdv_path_wd hwd]
+        exact ⟨hnd, fun y hy => List.mem_append_left _ (hsub y hy)⟩
+      | false =>
+        rw [fwdAdv_path hwd]
+        refine ⟨List.nodup_cons.2 ⟨fun h => hsb (hsub _ h), hnd⟩, ?_⟩
+        intro y hy
+        rcases List.mem_cons.1 hy with hy | hy
+        · subst hy; simp
+        · exact List.mem_append_left _ (hsub y hy)
+    | wdr hop ha hcidr hd hadv => rw [hadv]; simp [withdrawAdv]
     | rep ord hop ha hb' hl hadv =>
       subst hop
       obtain ⟨_, hp⟩ := benign_replay hb hadv
@@ -510,7 +529,7 @@ theorem pathInv_step {s : Net} {op : Op} (hI : PathInv s) (hb : benignOp s op = 
       simpa [replayGroup] using hy
   entries := by
     intro x e he
-    rcases entries_step he with h | ⟨a, m, hm, _, _, _, _, _, r, _, rfl⟩
+    rcases entries_step he with h | ⟨a, m, hm, _, _, _, _, _, _, r, _, rfl⟩
     · exact hI.entries x e h
     · exact (hI.flight _ hm).1
 
